@@ -179,7 +179,13 @@ func (rd *renderer) eol(allowComment bool) {
 	if st != nil && st.TrailingWS && st.chance(2) {
 		rd.sb.WriteString([]string{" ", "  ", "\t", " \t", "\t "}[st.pick(5)])
 	}
-	_ = allowComment // comments at the end of directive lines are not among the rewritings of C05: never emitted
+	// a comment at the end of a directive line (keyword, parameters, annotation, parenthesis - never a body line): glued to
+	// what precedes it or after blanks, one-line or block
+	if allowComment && st != nil && st.Comments > 0 && (st.R != nil || st.Script != nil) && st.chance(st.Comments+1) {
+		// (never a comment without text: in front of a body the line is read by the schema dependency, which mishandles
+		// a bare '#' - that family is exercised on purpose by C05's comment-after-body templates)
+		rd.sb.WriteString([]string{" # end of line", "# glued", " ### block ###", "###glued block###", "\t#\ttabs"}[st.pick(5)])
+	}
 	rd.sb.WriteString("\n")
 }
 
@@ -235,11 +241,16 @@ func (rd *renderer) directive(level int, keyword string, params []string, annota
 		rd.sb.WriteString(rd.sep() + p)
 	}
 	rd.sb.WriteString(rd.annot(annotation))
-	rd.eol(annotation == "" || true)
+	// a comment at the end of the line only where no body can follow: before a body the line belongs to the body reader
+	rd.eol(noBodyKeyword[keyword])
 	rd.afterText = false
 	rd.afterBody = false
 	return begin
 }
+
+var noBodyKeyword = map[string]bool{"JSIGHT": true, "INFO": true, "Title": true, "Version": true, "SERVER": true, "BaseUrl": true, "URL": true,
+	"GET": true, "POST": true, "PUT": true, "PATCH": true, "DELETE": true, "TAG": true, "Tags": true, "MACRO": true, "PASTE": true,
+	"Protocol": true, "Method": true, "INCLUDE": true}
 
 // sep is the blank run between a keyword and a parameter or between parameters.
 func (rd *renderer) sep() string {
@@ -384,14 +395,15 @@ func (rd *renderer) bodyLines(level int, lines []string) { rd.bodyLinesB(level, 
 func (rd *renderer) bodyLinesB(level int, lines []string, allowBorders bool) {
 	borders := allowBorders && rd.st != nil && rd.st.chance(rd.st.BodyBorders)
 	if borders {
-		rd.open(level)
+		rd.sb.WriteString(rd.indent(level) + "(")
+		rd.eol(false) // no comment next to a body: the schema dependency would read it
 	}
 	for _, l := range lines {
 		rd.sb.WriteString(rd.indentFixed(level) + l + "\n")
 	}
 	if borders {
 		rd.sb.WriteString(rd.indent(level) + ")")
-		rd.eol(true)
+		rd.eol(false)
 	}
 	rd.afterText = false
 	rd.afterBody = true
